@@ -146,7 +146,27 @@ func runNOOPEARLY(c *Ctx) {
 			return false
 		}
 		sc := ir.Callee(call.Call)
-		return sc != nil && sc.String() == "reflect.DeepEqual"
+		if sc == nil || sc.String() != "reflect.DeepEqual" || len(call.Call.Args) != 2 {
+			return false
+		}
+		// what is compared is the stored value of ONE entry with the value handed in: an element of a node's Value
+		// list on one side, a parameter on the other (comparing the whole list, or a key, never comes out equal —
+		// or comes out equal for the wrong reason)
+		elem, prm := false, false
+		for _, a := range call.Call.Args {
+			v := ir.Strip(ir.ResolveCell(a))
+			if ld, ok := v.(*ssa.UnOp); ok && ld.Op == token.MUL {
+				if ia, ok := ld.X.(*ssa.IndexAddr); ok {
+					if _, f, ok := nodeSliceRoot(ia.X); ok && f == "Value" {
+						elem = true
+					}
+				}
+			}
+			if _, ok := v.(*ssa.Parameter); ok {
+				prm = true
+			}
+		}
+		return elem && prm
 	}
 	// the helper's answer is Insert's answer: each call of the chain is returned as it is
 	tail := func(chain []*ssa.Call) bool {
